@@ -2,6 +2,7 @@ package checks
 
 import (
 	"fmt"
+	"strings"
 	"time"
 
 	"verifsim/hx"
@@ -26,6 +27,55 @@ var c13Idents = []httpw.Ident{
 	{Auth: true, Domain: "b", Principal: "earer\x00alice"},
 	{Auth: true, Domain: "bearer", Principal: "alice\x00"},
 	{Auth: true, Domain: "", Principal: "anonymous"},
+	{Auth: true, Domain: "JWT", Principal: "alice"},
+	{Auth: true, Domain: "jwt", Principal: "Alice"},
+	{Auth: true, Domain: "jwt", Principal: "caf\u00e9"},
+	{Auth: true, Domain: "mtls", Principal: "CN=alice,O=x"},
+	{Auth: true, Domain: "bearer", Principal: strings.Repeat("a", 300) + "1"},
+}
+
+// c13Neighbours returns identities that differ from a only in a way an
+// implementation might normalise away: letter case, surrounding blanks, the
+// domain/principal boundary, Unicode composition, a long common prefix, and the
+// anonymous / empty / "anonymous"-named corner.
+func c13Neighbours(a httpw.Ident) []httpw.Ident {
+	var out []httpw.Ident
+	add := func(d, p string) {
+		b := httpw.Ident{Auth: true, Domain: d, Principal: p}
+		if b != a {
+			out = append(out, b)
+		}
+	}
+	if !a.Auth {
+		add("", "")
+		add("", "anonymous")
+		add("anonymous", "")
+		return out
+	}
+	d, p := a.Domain, a.Principal
+	add(strings.ToUpper(d), p)
+	add(strings.ToLower(d), p)
+	add(d, strings.ToUpper(p))
+	add(d, strings.ToLower(p))
+	add(d+" ", p)
+	add(d, p+" ")
+	add(d, " "+p)
+	if len(d) > 0 {
+		add(d[:len(d)-1], d[len(d)-1:]+p)
+	}
+	if len(p) > 0 {
+		add(d+p[:1], p[1:])
+	}
+	add(d, strings.ReplaceAll(p, "\u00e9", "e\u0301"))
+	if len(p) > 200 {
+		add(d, p[:len(p)-1]+"2")
+		add(d, p[:len(p)-1])
+	}
+	add(p, d)
+	if d == "" && p == "" || d == "" && p == "anonymous" {
+		out = append(out, httpw.Ident{})
+	}
+	return out
 }
 
 // C13 — tokens are bound to the identity and the kind they were minted for.
@@ -116,6 +166,11 @@ func C13(e *simkern.Env) {
 					sim.Probe("cache-warmed-by-owner")
 				}
 				b := c13Idents[tp.Draw(len(c13Idents))]
+				if nb := c13Neighbours(a); len(nb) > 0 && tp.Bool(1, 2) {
+					// a near miss of the owner: what a normalising comparison would confuse
+					b = nb[tp.Draw(len(nb))]
+					sim.Probe("near-miss-identity")
+				}
 				same := a == b
 				fresh := cl.Inst[0]
 				restarted := false
@@ -230,7 +285,7 @@ func init() {
 	Registry["C13"] = &Info{
 		Run:   C13,
 		Level: "exploration",
-		Rule:  "each run mints, for 3-7 tape-chosen owner identities out of 10 (anonymous; empty domain / empty principal; same principal under two domains; principals containing NUL or spelling the anonymous marker), a cursor, a call token and a sticky-session token through real requests, optionally warms the call-state cache with the owner's own continuation, and then presents them as another tape-chosen identity to the cached instance, the cache-less twin and (one run in three) a freshly restarted instance; or presents each token kind in another kind's slot as the rightful owner; older tokens are re-presented after other identities used the server; distinct = schedule fingerprint",
+		Rule:  "each run mints, for 3-7 tape-chosen owner identities out of 15 (anonymous; empty domain / empty principal; same principal under two domains; principals containing NUL or spelling the anonymous marker; upper/lower-case domains and principals; a non-ASCII principal; a 301-byte principal), a cursor, a call token and a sticky-session token through real requests, optionally warms the call-state cache with the owner's own continuation, and then presents them as another tape-chosen identity (half of the time a near miss of the owner: other letter case, added blank, shifted domain/principal boundary, decomposed Unicode, same 300-byte prefix, swapped fields) to the cached instance, the cache-less twin and (one run in three) a freshly restarted instance; or presents each token kind in another kind's slot as the rightful owner; older tokens are re-presented after other identities used the server; distinct = schedule fingerprint",
 		Real:  []string{"vgirpc.HttpServer token AAD binding (cursor, call, sticky session), call-state cache keying, sticky registry partitioning"},
 		Stub:  []string{"HTTP transport", "authenticator mapping an identity header to AuthContext", "scripted handlers"},
 		Quick: 600, Thorough: 60000,
